@@ -2870,7 +2870,9 @@ func (a *adapter) CredUpsert(cred *t.Credential) (bool, error) {
 			return false, err
 		}
 		// Assume that the record exists and try to update it: undelete, update timestamp and response value.
-		res, err := tx.Exec(ctx, "UPDATE credentials SET updatedat=$1,deletedat=NULL,resp=$2,done=FALSE WHERE synthetic=$3",
+		// Must not shadow 'err': the deferred rollback checks it.
+		var res pgconn.CommandTag
+		res, err = tx.Exec(ctx, "UPDATE credentials SET updatedat=$1,deletedat=NULL,resp=$2,done=FALSE WHERE synthetic=$3",
 			cred.UpdatedAt, cred.Resp, synth)
 		if err != nil {
 			return false, err
